@@ -52,6 +52,8 @@ func Corpus() []Scenario {
 			sel(0, 0), sel(1, 0), app(0, 0), drain(1), cmd(1, "noop"), cmd(1, "probe"),
 			mv(0, []int{1}, 1), sel(0, 1), mv(0, []int{1}, 0), sel(0, 0), app(0, 0),
 			drain(1), cmd(1, "search"), cmd(1, "probe"), qs(1)}},
+		{Name: "failing-fetch-leaves-no-trace", K: 1, Ops: []Op{ // FETCH BODY[9] of a single-part message: NO, and no \\Seen in the view
+			sel(0, 0), app(0, 0), app(0, 0, 3), cmd(0, "probe"), fb(0, "fetchbadpart", 1), cmd(0, "probe"), fb(0, "fetchbadpart", 2), cmd(0, "noop"), cmd(0, "probe")}},
 		{Name: "idle-bulk", K: 2, Bulk: true, Ops: []Op{
 			sel(0, 0), sel(1, 0), cmd(1, "idle"), app(0, 0), app(0, 0, 2), drain(1), store(0, []int{1}, "add", false, 3), drain(1),
 			cmd(1, "done"), cmd(1, "probe")}},
